@@ -38,10 +38,10 @@ theorem C19_nonempty_iff (cfg : Cfg) (e a : Ty) : descEmpty cfg true e a = false
   rw [C19_empty_iff]
 
 theorem C19_assert_sound (cfg : Cfg) (hl : ∀ s, (cfg.lower s).length = s.length) (a b : Ty) (v : Val)
-    (fa : a.Frag) (fb : b.Frag) (wa : Ty.WF cfg a) (wb : Ty.WF cfg b) (us : b.US) (ok : v.OK) (tv : Val.TyOK cfg v)
+    (fa : a.Frag false) (fb : b.Frag false) (wa : Ty.WF cfg a) (wb : Ty.WF cfg b) (us : b.US) (ok : v.OK) (tv : Val.TyOK cfg v)
     (h : descEmpty cfg false a b = true) (hb : assertOk cfg false b v = true) : assertOk cfg false a v = true := by
   have h' : asg cfg false a b = true := by simpa [descEmpty, hasTypeRef] using h
-  exact sound_all cfg hl (a.w + b.w) a b v (Nat.le_refl _) ⟨fa, fb, wa, wb, us, ok, tv⟩ h' hb
+  exact sound_all cfg false hl (a.w + b.w) a b v (Nat.le_refl _) ⟨fa, fb, wa, wb, us, ok, tv⟩ h' hb
 
 /-! non-vacuity -/
 example (cfg : Cfg) : descEmpty cfg true (.variant [.str, .int Rng.all]) (.int ⟨1, 2⟩) = true := by
